@@ -115,7 +115,7 @@ Qed.
 Section Colls.
   Variable ct : ctable.
   Hypothesis Hflat : flat_table ct.
-  Hypothesis Hninv : no_inval_table ct.
+  Hypothesis Hninv : inval_spec ct.
   Variable rec : call -> M val.
   Hypothesis Hrec_mv : forall m F, astable F -> mv_plain m ->
     T (IF ct F) (rec (KMutateValue m)) (fun r h => IF ct F h /\ mv_res m r h) (IF ct F).
@@ -481,7 +481,7 @@ End Colls.
 Section CollOps.
   Variable ct : ctable.
   Hypothesis Hflat : flat_table ct.
-  Hypothesis Hninv : no_inval_table ct.
+  Hypothesis Hninv : inval_spec ct.
   Notation Inv := (Inv ct).
   Notation rec := (exec ct XFUEL).
 
@@ -489,11 +489,11 @@ Section CollOps.
     forall cl d k sp, nth_error h l = Some (OInst cl d) -> lookup_cls ct cl = Some k ->
       lookup_attr k a = Some sp -> exists fam, leaf_coll sp fam.
 
-  Lemma prepare_then_store' rec' fuel l a sp fam v :
+  Lemma prepare_then_store' fuel' fuel l a sp fam v :
     leaf_coll sp fam ->
     T (fun h => Inv h /\ loose h v)
       (value <- prepare_attr_value ct (exec ct fuel) sp l v None ;;
-       mutate_attr ct rec' l a value true true false false)
+       mutate_attr ct (exec ct fuel') l a value true true false false)
       (fun _ h => Inv h) Inv.
   Proof.
     intro Hl. eapply T_bind.
@@ -501,7 +501,7 @@ Section CollOps.
       + intros h [I L]. split; [apply IF_true; exact I|exact L].
       + intros r h H. exact H.
       + intros h [I _]. exact I.
-    - intros value. eapply T_pre; [|apply (mutate_attr_inplace ct Hflat Hninv rec' l a value true)].
+    - intros value. eapply T_pre; [|apply (mutate_attr_inplace ct Hflat Hninv fuel' l a value true)].
       intros h [[I _] L]. split; auto. split; [left; exact L|discriminate].
   Qed.
 
@@ -515,9 +515,9 @@ Section CollOps.
     intros s [[[I [L R]] N] Hk].
     destruct (lookup_attr k a) as [sp|] eqn:Ha.
     - destruct (R _ _ _ _ N Hk Ha) as [fam Hl].
-      apply (prepare_then_store' (exec ct fuel) fuel l a sp fam v Hl s). auto.
+      apply (prepare_then_store' fuel fuel l a sp fam v Hl s). auto.
     - rewrite bind_ret_l.
-      apply (mutate_attr_inplace ct Hflat Hninv (exec ct fuel) l a v true s).
+      apply (mutate_attr_inplace ct Hflat Hninv fuel l a v true s).
       split; auto. split; [left; exact L|discriminate].
   Qed.
 
@@ -557,7 +557,7 @@ Section CollOps.
       destruct (lookup_attr k a) as [sp|] eqn:Ha; simpl; auto.
       split; auto. split; [eapply lookup_attr_name; eauto|eauto]. }
     intros r. apply T_pull. intros [Hn [fam Hl]]. unfold with_attr. rewrite Hn.
-    apply (prepare_then_store' (exec ct XFUEL) XFUEL l a (snd r) fam (pos0 hh) Hl).
+    apply (prepare_then_store' XFUEL XFUEL l a (snd r) fam (pos0 hh) Hl).
   Qed.
 
   (* ---------- element helpers ---------- *)
@@ -584,7 +584,7 @@ Section CollOps.
       (mutate_attr ct rec l a (VRef fc) true false false false) (fun _ h => Inv h) Inv.
   Proof.
     intros Hk Ha Hl As.
-    eapply T_pre; [|apply (mutate_attr_inplace ct Hflat Hninv rec l a (VRef fc) false)].
+    eapply T_pre; [|apply (mutate_attr_inplace ct Hflat Hninv XFUEL l a (VRef fc) false)].
     intros h [[I N] C]. split; auto. split.
     - right. exists cl, d. auto.
     - intros _ cl' d' k' sp' N' Hk' Ha'. unfold inst_at in N. rewrite N in N'. inversion N'; subst cl' d'.
@@ -597,7 +597,7 @@ Section CollOps.
       (mutate_attr ct rec l a (VRef fc) true false false false) (fun _ h => Inv h) Inv.
   Proof.
     intros Hk Ha.
-    eapply T_pre; [|apply (mutate_attr_inplace ct Hflat Hninv rec l a (VRef fc) false)].
+    eapply T_pre; [|apply (mutate_attr_inplace ct Hflat Hninv XFUEL l a (VRef fc) false)].
     intros h [[I [N L]] C]. split; auto. split; [left; exact L|].
     intros _ cl' d' k' sp' N' Hk' Ha'. unfold inst_at in N. rewrite N in N'. inversion N'; subst cl' d'.
     rewrite Hk in Hk'. inversion Hk'; subst k'. rewrite Ha in Ha'. inversion Ha'; subst sp'. exact C.
@@ -937,7 +937,7 @@ End Remove.
 Section WithoutItem.
   Variable ct : ctable.
   Hypothesis Hflat : flat_table ct.
-  Hypothesis Hninv : no_inval_table ct.
+  Hypothesis Hninv : inval_spec ct.
   Notation Inv := (Inv ct).
   Notation rec := (exec ct XFUEL).
   Local Opaque exec XFUEL.
@@ -1103,7 +1103,7 @@ Theorem step_preserves_owned_coll ct roots o s :
   TypeInv ct s -> Owned ct (heap s) ->
   TypeInv ct (snd (step ct roots o s)) /\ Owned ct (heap (snd (step ct roots o s))).
 Proof.
-  intros Hf Hn Hop T O. apply no_inval_b_sound in Hn.
+  intros Hf Hn Hop T O. apply no_inval_b_sound in Hn. apply no_inval_spec in Hn.
   assert (I : Inv ct (heap s)) by (split; auto).
   change (Inv ct (heap (snd (step ct roots o s)))).
   destruct o as [| x a v | | x hp hh | | ob]; simpl in Hop; try discriminate.
